@@ -11,9 +11,10 @@
 -/
 import OpmVerif.Proofs.Units
 import OpmVerif.Proofs.UnitsUse
+import OpmVerif.Proofs.UnitsQuant
 
 namespace OpmVerif.Props.C02
-open OpmVerif.Units OpmVerif.Gen.Units OpmVerif.Gen.UnitsUse
+open OpmVerif.Units OpmVerif.Gen.Units OpmVerif.Gen.UnitsUse OpmVerif.Gen.UnitsQuant
 
 /-! ## invertible -/
 
@@ -405,6 +406,67 @@ theorem summary_unit_algebra :
     rcases this.1.1.1.2 with h | h
     · exact absurd h hn
     · exact h
+
+/-! ## round 5: keyword item → physical quantity (hand-written table vs the keyword JSON) -/
+
+/-- For EVERY item of the hand-written keyword-item → physical-quantity table (126 items, 151
+columns: PVT and saturation tables, EQUIL, aquifers, grid/solution arrays, well and group controls,
+COMPDAT, TUNING, VFP headers; `harness/units_quantities.cpp`, written from the reference manual),
+in EVERY deck unit system: the keyword JSON lists the item, with the same number of columns, and
+column by column the JSON's dimension string — resolved as `ParserItem::scan` resolves it — is
+exactly the unit of that physical quantity (scale and offset from the hand-written SI
+specification; "ContextDependent" = the factor-less entry).  A JSON edit that changes, drops or
+swaps a dimension of a listed item breaks this proof. -/
+theorem item_quantities_match (e : String × List String) (he : e ∈ itemQuantities)
+    (s : SysDef Rat) (hs : s ∈ Spec.deckSystems) :
+    ∃ strs, Spec.jsonDimsOf e.1 = some strs ∧ strs.length = e.2.length ∧
+      ∀ (c : Nat) (str q : String), strs[c]? = some str → e.2[c]? = some q → Spec.colQuantOk s str q = true :=
+  item_quantities e he s hs
+
+/-- … in value form, for all values: the number `x` written into column `c` comes out of the
+conversion the JSON attaches as `x · scale + offset` of the column's quantity -/
+theorem item_quantity_si_value (e : String × List String) (he : e ∈ itemQuantities)
+    (s : SysDef Rat) (hs : s ∈ Spec.deckSystems) (c : Nat) (q : String) (hq : e.2[c]? = some q)
+    (hne : q ≠ "ContextDependent") :
+    ∃ strs str deck sc off d, Spec.jsonDimsOf e.1 = some strs ∧ strs[c]? = some str ∧
+      s.deckName = some deck ∧ Spec.quantValue deck q = some (sc, off) ∧
+      getNewDimension s str = some d ∧ ∀ x : Rat, d.rawToSi x = some (x * sc + off) :=
+  item_quantity_value e he s hs c q hq hne
+
+/-- … hence deck-unit independent: the same physical input written in two deck unit systems into
+the same column of a listed item gives the same SI value -/
+theorem item_quantity_deck_unit_independent (e : String × List String) (he : e ∈ itemQuantities)
+    (s₁ s₂ : SysDef Rat) (h₁ : s₁ ∈ Spec.deckSystems) (h₂ : s₂ ∈ Spec.deckSystems)
+    (c : Nat) (q : String) (hq : e.2[c]? = some q) (hne : q ≠ "ContextDependent") :
+    ∃ strs str deck₁ deck₂ sc₁ off₁ sc₂ off₂ d₁ d₂, Spec.jsonDimsOf e.1 = some strs ∧ strs[c]? = some str ∧
+      s₁.deckName = some deck₁ ∧ s₂.deckName = some deck₂ ∧
+      Spec.quantValue deck₁ q = some (sc₁, off₁) ∧ Spec.quantValue deck₂ q = some (sc₂, off₂) ∧
+      getNewDimension s₁ str = some d₁ ∧ getNewDimension s₂ str = some d₂ ∧
+      ∀ x₁ x₂ : Rat, x₁ * sc₁ + off₁ = x₂ * sc₂ + off₂ → d₁.rawToSi x₁ = d₂.rawToSi x₂ :=
+  item_quantity_unit_independent e he s₁ s₂ h₁ h₂ c q hq hne
+
+/-- every quantity the harness has numbers for is specified (and conversely), and the item table
+uses no other quantity -/
+theorem item_quantities_closed : Spec.quantitiesCovered = true := quantities_covered
+
+-- non-vacuity: rows of the table (a multi-column one), the four deck systems, values of quantities
+-- incl. the offset one, and that the check has teeth: swapped PVTO columns, a pressure where a length
+-- belongs, rb/Mscf vs Mscf/stb all fail in FIELD (some are invisible in METRIC — hence all four systems)
+example : ("PVTO.0.DATA", ["Pressure", "LiquidFVF", "Viscosity"]) ∈ itemQuantities ∧
+    ("COMPDAT.0.Kh", ["PermThickness"]) ∈ itemQuantities ∧ itemQuantities.length > 120 ∧
+    Spec.deckSystems.length = 4 ∧
+    Spec.quantValue "FIELD" "GasFVF" = some (Spec.stb / Spec.mscf, 0) ∧
+    Spec.quantValue "FIELD" "Temperature" = some (5 / 9, Spec.degFOffset) ∧
+    Spec.quantValue "LAB" "LiquidPI" = some (Spec.cm3 / (Spec.hour * Spec.atm), 0) ∧
+    Spec.colsOk (sys.UNIT_TYPE_FIELD Rat) ["Pressure", "1", "Viscosity"] ["Pressure", "LiquidFVF", "Viscosity"] = true ∧
+    Spec.colsOk (sys.UNIT_TYPE_FIELD Rat) ["1", "Pressure", "Viscosity"] ["Pressure", "LiquidFVF", "Viscosity"] = false ∧
+    Spec.colQuantOk (sys.UNIT_TYPE_FIELD Rat) "Pressure" "Length" = false ∧
+    Spec.colQuantOk (sys.UNIT_TYPE_FIELD Rat) "Permeability*Length*Length" "PermThickness" = false ∧    -- mutation M18
+    Spec.colQuantOk (sys.UNIT_TYPE_METRIC Rat) "Permeability*Length*Length" "PermThickness" = true ∧    -- … invisible in METRIC
+    Spec.colQuantOk (sys.UNIT_TYPE_METRIC Rat) "LiquidSurfaceVolume/Time" "Pressure" = false ∧          -- mutation M19
+    Spec.colQuantOk (sys.UNIT_TYPE_FIELD Rat) "GasDissolutionFactor" "GasFVF" = false ∧
+    Spec.colQuantOk (sys.UNIT_TYPE_METRIC Rat) "GasDissolutionFactor" "GasFVF" = true ∧
+    Spec.colQuantOk (sys.UNIT_TYPE_FIELD Rat) "LiquidSurfaceVolume/Time" "ReservoirRate" = true := by decide +kernel
 
 /-! ### non-vacuity (round 3) -/
 
